@@ -119,6 +119,19 @@ def build_engines():
     return outs
 
 
+def all_variants(spec):
+    """name -> extra compiler flags, over the variants of every tier ("variants" = both tiers, "variants_thorough" = thorough only)."""
+    v = dict(spec.get("variants", {"": []}))
+    v.update(spec.get("variants_thorough", {}))
+    return v
+
+
+def tier_variants(spec, tier):
+    if tier == "thorough" and "variants_thorough" in spec:
+        return list(spec["variants_thorough"].keys())
+    return list(dict(spec.get("variants", {"": []})).keys())
+
+
 def harness_sources(pid):
     h = os.path.join(VERIF, "harness")
     files = [os.path.join(h, "prop_%s.cpp" % pid)]
@@ -135,7 +148,7 @@ def build_prop(pid, variant="", want_fuzz=False, quiet=True):
     cfginc = configure()
     eng = build_engines()
     spec = PROPS[pid]
-    vflags = dict(spec.get("variants", {"": []}))[variant]
+    vflags = all_variants(spec)[variant]
     tsan = spec.get("tsan", False)
     san = ["-fsanitize=thread"] if tsan else SAN
     flags = BASEFLAGS + san + vflags + ["-I", os.path.join(REPO, "include"), "-I", cfginc, "-I", os.path.join(VERIF, "harness"),
@@ -325,7 +338,7 @@ def check(pid, tier):
     seed = int(os.environ.get("VERIF_SEED", "1") or "1")
     spec = PROPS[pid]
     cfg = spec[tier]
-    variants = list(dict(spec.get("variants", {"": []})).keys())
+    variants = tier_variants(spec, tier)
     want_fuzz = cfg.get("fuzz_secs", 0) > 0
     bins = {v: build_prop(pid, v, want_fuzz=want_fuzz) for v in variants}
     work = os.path.join(BUILD, "work-%s-%s%s-%d" % (pid, tier, ALT_TAG, os.getpid()))
@@ -621,7 +634,7 @@ def main():
     if a.cmd == "replay":
         pid = a.args[0]
         rc = 0
-        for v in dict(PROPS[pid].get("variants", {"": []})):
+        for v in all_variants(PROPS[pid]):
             b = build_prop(pid, v)
             env = dict(os.environ); env["ASAN_OPTIONS"] = ASAN_ENV
             rc |= subprocess.run([b["prop"], "replay"] + a.args[1:], env=env).returncode
